@@ -1327,6 +1327,21 @@ func TestVerifNoise(t *testing.T) {
 	if ntr > 0 {
 		out.emit(vnConfusionCase(master.fork(400000)))
 	}
+	// several sessions in one process (verif_noise_multi_test.go)
+	nmr := int(vEnvInt("VERIF_N_MULTI", int64(vCases(16, 300))))
+	nmc := int(vEnvInt("VERIF_N_MCONC", int64(vCases(4, 60))))
+	nme := int(vEnvInt("VERIF_N_MENUM", int64(vCases(2, 12))))
+	for i := 0; i < nme; i++ {
+		for pair := 0; pair < 3; pair++ {
+			out.emit(vnMultiEnumGroup(master.fork(uint64(600000+3*i+pair)), pair))
+		}
+	}
+	for i := 0; i < nmr; i++ {
+		out.emit(vnMultiRandCase(master.fork(uint64(700000 + i))))
+	}
+	for i := 0; i < nmc; i++ {
+		out.emit(vnMultiConcCase(master.fork(uint64(800000 + i))))
+	}
 	if vEnvInt("VERIF_CONN_SWEEP", 0) != 0 {
 		idx := uint64(500000)
 		for _, L := range []int{65534, 65535, 65536, 65537, 2*65535 - 1, 2 * 65535, 2*65535 + 1,
